@@ -49,7 +49,10 @@ check("C19",
       "DESIGN.md §4 C19")
 
 check("C05",
-      "Theorems (Lean, for EVERY decoder function, input and declared size): the repaired Worker.decompress / "
+      "Theorems (Lean): parsed_header_bounded / parsed_encoded_bounded - for EVERY byte string given to Header._read a "
+      "successful parse has <= 8 members and <= 8 declared sub-streams per header byte and <= 1 folder / pack size per "
+      "byte (post-conditions of every production on arbitrary input; the count bombs F4 and dea92af were the absence of "
+      "this). For EVERY decoder function, input and declared size: the repaired Worker.decompress / "
       "encoded-header loop ends within (declared output + unread input + 1)(k+2) iterations; a call never returns more "
       "than requested; counter-example theorem for the pinned unguarded loop (F4, repaired). The decode model is tied "
       "to compressor.py/py7zr.py by scripted-decoder correspondence (calls and whole loops incl. the stall guard); the "
@@ -97,9 +100,14 @@ check("C06",
       "(every count, size, vector length, END marker, reserved bit), validated against the third-party fixtures. "
       "Exploration: logical archives x 24 layout features from an independent reference writer, validated by the "
       "strict reader, then read by py7zr (listing, metadata, extraction to a factory AND to a directory) and compared "
-      "member by member; plus all decodable fixtures. Partial: header *parsing* (Impl reader = strict reader on valid "
-      "input) is tied by correspondence and exploration, not proved.",
-      "Lean 4 refinement proof (cursor simulates the format's assignment) + strict reference parser + differential correspondence + layout exploration with an independent writer",
+      "member by member; plus all decodable fixtures. Parse half (Lean, EVERY input of < 2^63 bytes the strict reader "
+      "accepts, no assumption about the writer): reader_refines_spec_number / _boolvector / _packinfo / _unpackinfo - the "
+      "model of py7zr's reader succeeds on the same bytes, stops at the same place and returns the same NUMBERs, bit "
+      "vectors, PackInfo (sizes, with or without CRC section) and UnpackInfo (any folders, simple and complex coders, "
+      "properties, bind pairs, packed indices, unpack sizes, folder CRCs absent / all / partially defined). Partial: "
+      "for SubStreamsInfo and the FilesInfo property loop 'Impl reader = strict reader on valid input' is tied by "
+      "correspondence and exploration, not proved.",
+      "Lean 4 refinement proofs (cursor simulates the format's assignment; py7zr's reader model refines the strict reader production by production, by inversion of both parser monads) + strict reference parser + differential correspondence + layout exploration with an independent writer",
       "DESIGN.md §9.3 C06")
 check("C07",
       "Theorems (Lean, unbounded). (1) session_archive_conforms: for EVERY list of write calls of a create session (names "
